@@ -28,6 +28,9 @@ CHECKS = {
  "C17": (True, "fault_enumeration", "fault injection with known token positions: every single-token corruption (insert/replace by a character that starts no ASN.1 token, delete, replace) of grammar-generated inputs; the reported offset/line/src_file and the three renderings (Display, contextualize, ReportData) are compared with positions known by construction",
          "For every corrupted input that the real compiler rejects with a syntax error: offset within input and on a char boundary, line = 1 + line breaks before offset, offset not before the end of the preceding definition and not after the offending character (exact upper bound for garbage-character faults), Display line = contextualize marked line = contextualize header line = ReportData.line, src_file = the path iff given as file. Exhaustive over token positions for inputs within the per-input budget, sampled otherwise.",
          "Trusted: own layout engine (token byte spans), fixed patterns for the message shapes. A blank/absent error line cannot carry the contextualize marker (it omits blank lines by design) and is not judged.", "DESIGN.md §4 C17"),
+ "C09": (True, "exploration", "metamorphic monitor: two executions of the real compiler on a sugared module and on the harness's hand-expansion of the same description (both with identical helper definitions), compared on the token-normalised items of the target definitions; each pair also compiled with helper names sorting before and after the referencing name",
+         "Held on the pairs executed (6k quick / 200k thorough) for named numbers in constraints, single-level value references, parameterized types with 1..3 parameters and 1..3 instantiations, selection types, fixed-type class fields in SEQUENCE/SET/CHOICE, and COMPONENTS OF as last member of a non-extensible type; COMPONENTS OF at other positions and value-reference chains of length >= 2 are known findings of the pinned tree.",
+         "Trusted: the harness's expansion (X.680 25.5/30, X.683 8-9, X.681). A pair whose expanded form does not compile cleanly is not a claim. NULL is not used as actual type parameter (the compiler answers with a warning).", "DESIGN.md §4 C09"),
  "C10": (True, "exploration", "conservation monitor over the hook event log: parsed inventory (H1) = emitted (H5 tokens + name present in the syn projection) u warned (H5 Err / named in a linker warning) u documented-silent; key overwrites (H2) explain losses; locality monitor: metamorphic comparison of the items of independent definitions before/after replacing 1..3 assignments by parseable-but-unsupported ones",
          "Held on the executions observed: every top-level assignment of 1200+ generated module sets (quick) and of every compiling real-world module is accounted for in the event log; after 3 fault trials per input every definition outside the dependency cone of the replaced ones keeps byte-identical token-normalised items. 'Err carries nothing' holds by type (Result) and is not a run-time claim.",
          "Trusted: hooks H1/H2/H5, model reference graph for the dependency cone, attribution of items to definitions by unique serial names. Object sets count as documented-silent under opaque_open_types (the default).", "DESIGN.md §4 C10"),
